@@ -2572,13 +2572,18 @@ func validateAccountValue(value, maxValue btcutil.Amount) error {
 // validateAccountExpiry ensures that a trader has provided a sane account expiry
 // for the creation/modification of an account.
 func validateAccountExpiry(expiry, bestHeight uint32) error {
-	if expiry < bestHeight+minAccountExpiry {
+	// The window bounds are computed in 64 bits: as uint32 sums they wrap
+	// around for heights close to the maximum and would then admit expiries
+	// far outside of the window.
+	minExpiry := uint64(bestHeight) + minAccountExpiry
+	maxExpiry := uint64(bestHeight) + maxAccountExpiry
+	if uint64(expiry) < minExpiry {
 		return fmt.Errorf("current minimum account expiry allowed is "+
-			"height %v", bestHeight+minAccountExpiry)
+			"height %v", minExpiry)
 	}
-	if expiry > bestHeight+maxAccountExpiry {
+	if uint64(expiry) > maxExpiry {
 		return fmt.Errorf("current maximum account expiry allowed is "+
-			"height %v", bestHeight+maxAccountExpiry)
+			"height %v", maxExpiry)
 	}
 
 	return nil
